@@ -46,7 +46,11 @@ pub fn family(alpha: &[u8], k: usize, l: usize) -> Vec<Pats> {
 }
 
 /// byte pools that exercise folding boundaries and non-ASCII bytes
-pub const POOLS: [&[u8]; 7] = [
+pub const POOLS: [&[u8]; 10] = [
+    // bytes at the ends and in the middle of the byte range (class boundaries, signedness)
+    &[0x00, 0x01, 0x02],
+    &[0xFD, 0xFE, 0xFF],
+    &[0x7E, 0x7F, 0x80, 0x81],
     b"ab",
     b"abc",
     b"aAbB",
